@@ -218,17 +218,20 @@ TRUSTED_BASE = [
 
 def proof_gate(rep, prop, theorems, imports):
     """steps 1-3 of every run: build, hygiene, audit. Returns the list of broken obligations
-    (empty = all theorems present with permitted axioms). Infra problems raise."""
-    ok, log, dt = lake_build()
+    (empty = all theorems present with permitted axioms). Infra problems raise.
+    Only the property's own modules (and the driver) are built, so that a broken generated-facts
+    module of another property cannot disturb this one."""
+    ok, log, dt = lake_build(tuple(imports) + ("driver",))
     broken = []
     if not ok:
         # the only part of the Lean tree that depends on /repo is SocVerif/Generated/*
-        gen_broken = "Generated" in log
+        gen_broken = "Generated/" in log and "error" in log
         if not gen_broken:
             raise Infra("lake build failed outside Generated/*:\n" + log[-3000:])
-        broken.append({"kind": "build", "log": log[-3000:]})
+        errs = [l for l in log.splitlines() if l.startswith("error:")]
+        broken.append({"kind": "build", "errors": errs[:10], "log": log[-3000:]})
         rep.coverage.update({"obligations": len(theorems), "discharged": 0,
-                             "checker_cmd": "lake build SocVerif driver && lake env lean Audit/%s.lean" % prop,
+                             "checker_cmd": "lake build %s driver && lake env lean Audit/%s.lean" % (" ".join(imports), prop),
                              "trusted_base": TRUSTED_BASE, "build_s": round(dt, 1)})
         return broken
     bad = hygiene()
@@ -243,7 +246,7 @@ def proof_gate(rep, prop, theorems, imports):
         raise Infra(f"audit: forbidden axioms {forbidden}")
     rep.coverage.update({
         "obligations": len(theorems), "discharged": len(res),
-        "checker_cmd": "lake build SocVerif driver && lake env lean Audit/%s.lean" % prop,
+        "checker_cmd": "lake build %s driver && lake env lean Audit/%s.lean" % (" ".join(imports), prop),
         "trusted_base": TRUSTED_BASE, "axioms": {t: sorted(a) for t, a in res.items()},
         "build_s": round(dt, 1),
     })
